@@ -62,5 +62,5 @@ Print Assumptions J_snap_quiet_complete.
 Example J_snap_learn_hyp :
   exists i, judge_learn_snap
     (Snap 0 2 [-1; -2] [-2; -2] [None; Some (PBC [(1, 1); (1, -2)] 1)] [false; false]
-          (Some (PBC [(1, 1); (1, 2)] 1)) [] true 1 [] 1 [] 0 0 false 0 [] []) = Ok i.
+          (Some (PBC [(1, 1); (1, 2)] 1)) [] true 1 [] 1 [] 0 0 false 0 [] [] [] []) = Ok i.
 Proof. vm_compute. eexists. reflexivity. Qed.
